@@ -437,8 +437,12 @@ def check(pid, tier):
         for lab, ln in r.labels.items():
             if lab.startswith(pid + '.'):
                 samples.append({'label': lab, 'unit': r.name, 'clause': open(r.gen_path).read().split('\n')[ln - 1].strip()[:200]})
-        lemma_labels = {lab for lab in r.labels if lab.startswith(pid + '.')}
-        obligations += len([lab for lab in lemma_labels if lab.count('.') >= 1 and '.lemma.' in lab])
+        # labelled clauses of this property that are not already counted through a function whose props include pid:
+        # lemmas / client harnesses written in the template, and clauses carrying another property's label
+        counted_ranges = [fn.gen_lines for fn in r.funcs if fn.kind in ('fn', 'body') and pid in fn.props and fn.gen_lines]
+        for lab, ln in r.labels.items():
+            if lab.startswith(pid + '.') and not any(a <= ln <= b for a, b in counted_ranges):
+                obligations += 1
         trusted += r.trusted
         for k, v in r.rules.items():
             rules[k] = rules.get(k, 0) + v
